@@ -63,6 +63,7 @@ def _gen_program_once(rng, *, futures, hooks, max_pre):
     hook_ids = [0]
     fut_names = [f"f{i}" for i in range(rng.randrange(1, 9))] if futures else []
     awaited: set[str] = set()
+    in_combinators: set[str] = set()  # names used only as combinator inputs: may be shared between combinators
     value_ids = [100]
     delays = DELAYS_C02 if futures else DELAYS
 
@@ -72,6 +73,9 @@ def _gen_program_once(rng, *, futures, hooks, max_pre):
 
     def fexpr(depth=0):
         free = [f for f in fut_names if f not in awaited]
+        if depth > 0 and in_combinators and rng.random() < 0.35:
+            # the same future as input of a second combinator (shared deadline / shutdown future)
+            return rng.choice(sorted(in_combinators))
         if not free:
             return None
         if depth < 3 and len(free) >= 2 and rng.random() < 0.45:
@@ -89,6 +93,8 @@ def _gen_program_once(rng, *, futures, hooks, max_pre):
             return None
         f = rng.choice(free)
         awaited.add(f)
+        if depth > 0:
+            in_combinators.add(f)
         return f
 
     def body(ti, depth=0):
@@ -109,17 +115,16 @@ def _gen_program_once(rng, *, futures, hooks, max_pre):
             if futures and depth < 3 and r < 0.62:
                 out.append({"op": "sub", "body": body(ti, depth + 1)})
                 continue
+            if hooks and r < 0.70:
+                out.append({"op": "add_hook", "hook": _hook(rng, n_ent, min(ti + 1, len(TYPES) - 1), handles, hook_ids)})
+                continue
             side = None
             if ti + 1 < len(TYPES) and rng.random() < 0.4:
                 side = [_evspec(rng, n_ent, ti + 1, handles, hooks=hooks, hook_ids=hook_ids) for _ in range(rng.randrange(0, 3))]
-            out.append(
-                {
-                    "op": "delay",
-                    "d": rng.choice(delays),
-                    "side": side,
-                    "side_style": rng.choice(["list", "list", "single", "none"]),
-                }
-            )
+            style = rng.choice(["list", "list", "single", "none"])
+            if futures and not side and rng.random() < 0.5:
+                side, style = [], "shared"
+            out.append({"op": "delay", "d": rng.choice(delays), "side": side, "side_style": style})
         return out
 
     table = {}
@@ -142,6 +147,8 @@ def _gen_program_once(rng, *, futures, hooks, max_pre):
                 }
                 if futures and fut_names and rng.random() < 0.5:
                     act["resolve"] = [[rng.choice(fut_names), new_value()] for _ in range(rng.randrange(1, 3))]
+                if hooks and rng.random() < 0.15:
+                    act["add_hooks"] = [_hook(rng, n_ent, min(ti + 1, len(TYPES) - 1), handles, hook_ids)]
                 table[f"{e}:{t}"] = act
             else:
                 ret = []
